@@ -105,6 +105,8 @@ Inductive outcome := OAck (r : revid) (s : N) | OConflict | OForbidden | OFailed
 
 Record docstate := { d_cas : N; d_seq : N; d_unused : list N; d_tree : tree }.
 Record prepared := { p_cas : N; p_doc : docstate; p_rev : revid;
+                     p_delbody : bool;  (* the snapshot was live and the new current revision is a tombstone: the storage
+                                           layer is asked to delete the body *)
                      p_resurrect : bool (* the snapshot was a tombstone and the new current revision is live: the storage
                                            layer writes it with insert semantics, WITHOUT the compare-and-swap *) }.
 Record writer := { w_op : wop; w_attempt : nat;
@@ -221,11 +223,18 @@ Section Step.
                 let nd := {| d_cas := d_cas snap + 1; d_seq := docseq'; d_unused := unused'; d_tree := t' |} in
                 upd {| w_op := o; w_attempt := S (w_attempt w); w_matchrev := match'; w_docseq := docseq'; w_unusedseqs := unused';
                        w_prep := Some {| p_cas := d_cas snap; p_doc := nd; p_rev := newid;
+                                         p_delbody := negb (is_tombstone snap) && negb (Nat.eqb (length (d_tree snap)) 0) && is_tombstone nd;
                                          p_resurrect := is_tombstone snap && negb (is_tombstone nd) |}; w_out := None |} [] last'
     end.
 
   Definition write_gate (s : world) (p : prepared) : bool :=
     (p_cas p =? d_cas (st s)) || (resurrect_unchecked && p_resurrect p && is_tombstone (st s)).
+
+  (* rosmar quirk (the test storage): a tombstone write prepared on a live snapshot ("delete the body") that finds
+     the document already tombstoned fails with a storage error instead of a CAS mismatch: no retry, the writer
+     fails and gives its sequences back.  Only in the faithful variant. *)
+  Definition tomb_quirk (s : world) (p : prepared) : bool :=
+    resurrect_unchecked && p_delbody p && is_tombstone (st s).
 
   Definition write (s : world) (i : nat) (w : writer) (p : prepared) : world :=
     if write_gate s p then
@@ -241,6 +250,9 @@ Section Step.
            commits := commits s ++ [{| c_rev := p_rev p; c_parent := rev_parent_of (p_doc p) (p_rev p);
                                        c_seq := d_seq (p_doc p); c_unused := d_unused (p_doc p); c_prevseq := d_seq (st s);
                                        c_put := match w_push (w_op w) with [] => true | _ => false end |}] |}
+    else if tomb_quirk s p then
+      let '(w', rel) := finish_failed w (w_docseq w) (w_unusedseqs w) OFailed in
+      {| st := st s; last := last s; released := released s ++ rel; ws := set_nth i w' (ws s); commits := commits s |}
     else (* CAS mismatch: run the callback again *)
       {| st := st s; last := last s; released := released s;
          ws := set_nth i {| w_op := w_op w; w_attempt := w_attempt w; w_matchrev := w_matchrev w; w_docseq := w_docseq w; w_unusedseqs := w_unusedseqs w; w_prep := None; w_out := None |} (ws s);
